@@ -29,3 +29,28 @@ func VerifC03_NatRT() {
 	verifAssert(err == nil && v2 == v && p == n, "C03/nat-rt/parse")
 	verifObserve("b", b)
 }
+
+// ShrinkLength (used by the encoders when a signature comes out shorter than estimated): for every type, every
+// 64-bit length up to 2^32 and every shrink amount below it, the returned buffer starts with the same type,
+// carries exactly length-shrink in shortest form, ends where the input ended and leaves the value bytes alone.
+func VerifC03_ShrinkLength() {
+	typ := TLNum(verifRange("typ", 1, 0xfc))
+	l := verifRange("l", 1, 1<<32)
+	shrink := verifRange("shrink", 0, 1<<32)
+	verifAssume(shrink < l)
+	// header of the announced length followed by 4 value bytes (the function only touches the header)
+	hdr := make([]byte, 16)
+	n := typ.EncodeInto(hdr)
+	n += TLNum(l).EncodeInto(hdr[n:])
+	val := verifBytesN("val", 4)
+	buf := append(hdr[:n:n], val...)
+	var out Buffer
+	verifNoPanic("C03/shrink/no-panic", func() { out = ShrinkLength(buf, int(shrink)) })
+	t2, s1 := ParseTLNum(out)
+	l2, s2 := ParseTLNum(out[s1:])
+	verifAssert(t2 == typ, "C03/shrink/type-kept")
+	verifAssert(uint64(l2) == l-shrink, "C03/shrink/length-is-reduced-by-the-amount")
+	verifAssert(s2 == TLNum(l-shrink).EncodingLength(), "C03/shrink/length-in-shortest-form")
+	verifAssertBytesEq(out[s1+s2:], val, "C03/shrink/value-untouched-and-buffer-ends-where-it-did")
+	verifObserve("outlen", len(out))
+}
